@@ -64,6 +64,9 @@ let parse_obs (t : string) : lobs =
       | _ -> XOther
     with _ -> XOther)
 
+let wait_name = function
+  | Some WSmtpDrain -> "smtp-drain" | Some WPop3Drain -> "pop3-drain" | Some WRetJoin -> "retention-join" | None -> "nothing"
+
 let verdict_string ops (v : lverdict) : string =
   let at k = let k = int_of_nat k in
     Printf.sprintf "op%d(%s)" k (try List.nth ops k with _ -> "?") in
@@ -120,5 +123,35 @@ let () =
               else "ok"
           | _ -> "fail:observation-does-not-fit" in
         Mlutil.print_model m verdict
-    | "asm19", _ -> Mlutil.asm_case outs
+    | "asm19", [busy] ->
+        (* the assembled server with one listener unable to bind: the model (Model/LifecycleAsm.v, shape of
+           Services.Start pinned from the source) says whether the shutdown sequence gets through *)
+        let e = { f_web = (busy = "web"); f_smtp = (busy = "smtp"); f_pop3 = (busy = "pop3") } in
+        let bo = boot_pinned e true in
+        let m = if bo.bo_returns then "ok" else "fail:" ^ wait_name bo.bo_stuck_at ^ "-did-not-return" in
+        let verdict = match outs with
+          | ["ok"] -> "ok"
+          | o :: _ when String.length o > 5 && String.sub o 0 5 = "fail:" -> o
+          | o :: _ -> "fail:" ^ o
+          | [] -> "fail:no-observation" in
+        Mlutil.print_model [m] verdict
+    | "boot", [mask; period] when String.length mask = 3 ->
+        let e = { f_web = (mask.[0] = '1'); f_smtp = (mask.[1] = '1'); f_pop3 = (mask.[2] = '1') } in
+        let bo = boot_pinned e (period <> "0s") in
+        let b2s b = if b then "1" else "0" in
+        let m = ["ready=" ^ b2s bo.bo_ready; "notified=" ^ b2s bo.bo_notified;
+                 (if bo.bo_returns then "returns" else "stuck:" ^ wait_name bo.bo_stuck_at)] in
+        (* oracle = the statements of ready_iff_all_bound / notified_iff_some_failed / shutdown_terminates *)
+        let any_fail = e.f_web || e.f_smtp || e.f_pop3 in
+        let verdict = match outs with
+          | [r; n; t] ->
+              if r <> "ready=" ^ b2s (not any_fail) then
+                (if any_fail then "fail:ready-reported-although-a-listener-could-not-bind" else "fail:not-ready-although-all-listeners-bound")
+              else if n <> "notified=" ^ b2s any_fail then
+                (if any_fail then "fail:bind-failure-not-notified" else "fail:failure-notified-although-all-listeners-bound")
+              else if t <> "returns" then "fail:shutdown-does-not-end:" ^ t
+              else "ok"
+          | o :: _ when String.length o > 5 && String.sub o 0 5 = "fail:" -> o
+          | _ -> "fail:observation-does-not-fit" in
+        Mlutil.print_model m verdict
     | _ -> Mlutil.print_model ["UNKNOWN-KIND"] "ok")
